@@ -354,6 +354,7 @@ fn main() {
         "check" if args.len() >= 3 => cmd_check(&args[2], &args[3..]),
         "replay" if args.len() >= 3 => cmd_replay(&args[2]),
         "fingerprints" if args.len() >= 3 => cmd_fingerprints(&args[2], &args[3..]),
+        "dump" if args.len() >= 3 => { debug_dump(&args[2]); 0 }
         "items" if args.len() >= 3 => { debug_items(&args[2], parse_tier(&args[3..])); 0 }
         _ => harness_error("bad arguments"),
     };
@@ -366,5 +367,39 @@ pub fn debug_items(id: &str, tier: Tier) {
     for i in 0..prop.n_items(tier).min(100) {
         let scs = prop.expand(i, tier, 1);
         println!("item {i}: {} scenarios; first: {}", scs.len(), scs.first().map(|s| s.summary()).unwrap_or_default());
+    }
+}
+
+/// Debug helper: run the scenario of a replay file (high-level) and dump the solution.
+#[allow(dead_code)]
+pub fn debug_dump(path: &str) {
+    let s = std::fs::read_to_string(path).unwrap();
+    let rf: ReplayFile = serde_json::from_str(&s).unwrap();
+    let sc = rf.scenario;
+    println!("{}", sc.summary());
+    println!("t_eval = {:?}", sc.t_eval);
+    match sc.entry {
+        scenario::Entry::High => {
+            let o = run::run_high(&sc, true);
+            println!("verdict {:?}", o.verdict);
+            if let Some(s) = &o.sol {
+                println!("status {:?} nfev {} njev {} nstep {} naccpt {} nrejct {}", s.status, s.nfev, s.njev, s.nstep, s.naccpt, s.nrejct);
+                println!("t = {:?}", s.t);
+                println!("y = {:?}", s.y);
+                println!("t_events = {:?}", s.t_events);
+                println!("span = {:?}", s.sol_span());
+            }
+            println!("ode calls {} (in jac {}) jac calls {} ev calls {}", o.st.ode_calls, o.st.ode_calls_in_jac, o.st.jac_calls, o.st.ev_calls);
+            for r in o.st.odes.iter().take(40) {
+                println!("  ode seq {} t {:e} y {:?} injac {} faulted {}", r.seq, r.t, &o.st.arena[r.off..r.off + sc.prob.dim()], r.in_jac, r.faulted);
+            }
+        }
+        scenario::Entry::Low => {
+            let o = run::run_low(&sc, true);
+            println!("verdict {:?} res {:?}", o.verdict, o.res);
+            for (k, c) in o.cbs.iter().enumerate().take(60) {
+                println!("  cb {k}: xold {:e} x {:e} y {:?} ip_h {:e} act {:?}", c.xold, c.x, c.y_in, c.ip_h, c.action);
+            }
+        }
     }
 }
